@@ -311,7 +311,7 @@ func ruleR16ac(c *Ctx) {
 				return s
 			},
 			Edge: func(pc *PathCtx, s uint64, from *ssa.BasicBlock, si int) (uint64, bool) {
-				for _, f := range edgeFacts(from, si) {
+				for _, f := range pc.edgeFacts(from, si) {
 					if isNilConst(f.Y) && persistErr(f.X) {
 						if f.Eq {
 							s |= okPersist
